@@ -73,6 +73,8 @@ class Skeletons:
             return [("act", "return", s)]
         e = strip(s)
         k = e.get("k")
+        if k == "BinaryOperator" and e.get("op") == ",":
+            return self.items(kids(e)[0], declared) + self.items(kids(e)[1], declared)
         if k == "ExprWithCleanups" and kids(e):
             e = strip(kids(e)[0])
             k = e.get("k")
@@ -153,6 +155,10 @@ class Skeletons:
         ivars = [v for v in kids(init) if v.get("k") == "VarDecl"] if init is not None and init.get("k") == "DeclStmt" else []
         if len(ivars) == 1 and kids(ivars[0]) and self.fm.origin(kids(ivars[0])[0]).startswith("it(") and cond is not None:
             # for(auto it = X.begin(); it != X.end(); ++it) == the while form with the increment last
+            items = self.items(body, declared) + (self.items(inc, declared) if inc is not None else [])
+            return ("loop", "while(%s)" % self.fm.origin(cond), "", items, s)
+        if init is None and cond is not None:
+            # for( ; cond ; step, step) == while(cond){ body; step; step; }
             items = self.items(body, declared) + (self.items(inc, declared) if inc is not None else [])
             return ("loop", "while(%s)" % self.fm.origin(cond), "", items, s)
         if init is not None:
